@@ -13,3 +13,4 @@ def run(chk):
     backtest_rules.run_loop(chk, "C09")
     backtest_rules.adjust_call_sites(chk, "C09")
     tree_rules.settings_pushed_at_construction(chk, "C09")
+    core_rules.outlay_rules(chk, "C09")
